@@ -31,7 +31,7 @@ Resources == {Nil} \cup UNION {[D -> Vals] : D \in SUBSET Keys}
 
 RO == INSTANCE ResOps WITH Z <- BZero, SAdd <- BAddSat, SSub <- BSubSat, SMul <- BMulSat, SLt <- BLt
 
-BinOps == {"Add", "Sub", "SubOnlyExisting", "AddOnlyExisting", "SubEliminateNegative", "SubErrorNegative",
+BinOps == {"Add", "Sub", "AddTo", "SubFrom", "SubOnlyExisting", "AddOnlyExisting", "SubEliminateNegative", "SubErrorNegative",
            "FitIn", "FitInMaxUndef", "FitInActual",
            "ComponentWiseMin", "ComponentWiseMinOnlyExisting", "ComponentWiseMax", "MergeIfNotPresent",
            "StrictlyGreaterThan", "StrictlyGreaterThanOrEquals", "StrictlyGreaterThanOnlyExisting",
@@ -42,6 +42,8 @@ UnOps == {"StrictlyGreaterThanZero", "IsZero", "IsEmpty", "HasNegativeValue", "P
 Want(op, x, y) ==
     CASE op = "Add" -> RO!Add(x, y)
       [] op = "Sub" -> RO!Sub(x, y)
+      [] op = "AddTo" -> RO!AddTo(x, y)
+      [] op = "SubFrom" -> RO!SubFrom(x, y)
       [] op = "SubOnlyExisting" -> RO!SubOnlyExisting(x, y)
       [] op = "AddOnlyExisting" -> RO!AddOnlyExisting(x, y)
       [] op = "SubEliminateNegative" -> RO!SubEliminateNegative(x, y)
